@@ -12,8 +12,15 @@ SAMPLES = ['', 'plain ascii', 'Piano 1', 'a+b-c', 'caf\u00e9 \u00fc\u00df', '\u2
 
 
 def charset_now():
-    import mido.midifiles.meta as meta
-    return meta._charset
+    """a description of the charset in force, from behaviour alone (the library's private state is not read): how probe characters are encoded"""
+    from mido.midifiles.meta import MetaMessage
+    out = []
+    for ch in ('\u00e9', '\u20ac', '\u0416'):
+        try:
+            out.append('%r -> %s' % (ch, bytes(MetaMessage('text', text=ch).bytes()[3:]).hex()))
+        except Exception as e:  # noqa: BLE001
+            out.append('%r -> %s' % (ch, type(e).__name__))
+    return '; '.join(out)
 
 
 EXTRA_TEXTS = []     # the texts of the file the last call worked on: they must be coded with latin1 elsewhere, too
@@ -25,7 +32,9 @@ def elsewhere_ok():
     from mido.midifiles.meta import MetaMessage, encode_variable_int
     try:
         if not (MetaMessage('text', text='\u00e9').bytes() == [0xff, 0x01, 0x01, 0xe9] and
-                MetaMessage.from_bytes([0xff, 0x01, 0x01, 0xe9]).text == '\u00e9' and charset_now() == 'latin1'):
+                MetaMessage.from_bytes([0xff, 0x01, 0x01, 0xe9]).text == '\u00e9' and
+                MetaMessage('text', text='\u0080\u00ff').bytes() == [0xff, 0x01, 0x02, 0x80, 0xff] and
+                MetaMessage.from_bytes([0xff, 0x01, 0x02, 0x80, 0xa4]).text == '\u0080\u00a4'):
             return False
         for t, payload in EXTRA_TEXTS:
             try:
@@ -41,9 +50,19 @@ def elsewhere_ok():
         return False
 
 
+_KEPT = []
+
+
 def reset_charset():
+    """after a leak was seen: put latin1 back in force for the cases that follow, through the library's own switch (entered and never left;
+    kept alive so that no clean-up code of it ever runs)"""
     import mido.midifiles.meta as meta
-    meta._charset = 'latin1'
+    try:
+        cm = meta.meta_charset('latin1')
+        cm.__enter__()
+        _KEPT.append(cm)
+    except Exception:  # noqa: BLE001
+        pass
 
 
 def encodable(text, cs):
